@@ -65,12 +65,17 @@ def menu(I, s):
         tds('TD_DepOther', I + 'DepOther', '_' + I + 'DepOther'),
         tds('TD_BarThing', 'BarThing', '_BarThing'),
         tds('TD_Widget', 'Widget', '_Widget'),
+        tds('TD_ExtThing', I + 'ExtThing', '_' + I + 'ExtThing'),
         # functions
         fn('text_get_type', s + '_text_get_type', 'GType'),
         fn('tb_get_type', s + '_text_buffer_get_type', 'GType'),
         fn('text_new', s + '_text_new', I + 'Text*'),
         fn('tb_new', s + '_text_buffer_new', I + 'TextBuffer*'),
         fn('tb_new_view', s + '_text_buffer_new_view', I + 'Text*'),
+        # constructor-named functions taking the other type: tb_new_for also satisfies the method rule for
+        # Text (prefix text_ is a proper prefix of text_buffer_); the longest-prefix type owns it
+        fn('tb_new_for', s + '_text_buffer_new_for', I + 'TextBuffer*', [[I + 'Text*', 'text']]),
+        fn('text_new_with', s + '_text_new_with', I + 'Text*', [[I + 'TextBuffer*', 'buffer']]),
         fn('text_new_buffer', s + '_text_new_buffer', I + 'TextBuffer*'),
         fn('text_frob', s + '_text_frob', 'void', [[I + 'Text*', 'self']], cls='text_verb'),
         fn('text_tweak', s + '_text_tweak', 'void', [[I + 'Text*', 'self']], cls='text_verb'),
@@ -93,14 +98,19 @@ def menu(I, s):
         fn('bar_thing_do', 'bar_thing_do', 'void', [['BarThing*', 't']]),
         fn('bar_text_poke', 'bar_text_poke', 'void', [[I + 'Text*', 'self']]),
         fn('widget_show', 'widget_show', 'void', [['Widget*', 'w']]),
+        fn('ext_thing_frob', s + '_ext_thing_frob', 'void', [[I + 'ExtThing*', 't']]),
+        fn('ext_init', s + '_ext_init', 'void'),
         # annotated as methods: the name need not carry the type's prefix, the first parameter must
         # still be a type of this namespace
         dict(fn('ann_poke', s + '_poke', 'void', [[I + 'Text*', 't']]), ann='method'),
+        # annotated (constructor): stays a constructor although its first parameter is the constructed type
+        dict(fn('ann_text_copy', s + '_text_copy', I + 'Text*', [[I + 'Text*', 'src']]), ann='constructor'),
         dict(fn('ann_thing_zap', s + '_thing_zap', 'void', [[I + 'Thing*', 't']]), ann='method'),
         # constants
         {'id': 'K_MAX', 'k': 'const', 'name': S + '_MAX', 'value': 10},
         {'id': 'K_SECRET', 'k': 'const', 'name': '_' + S + '_SECRET', 'value': 1},
         {'id': 'K_BAR_MIN', 'k': 'const', 'name': 'BAR_MIN', 'value': 1},
+        {'id': 'K_EXT_MAX', 'k': 'const', 'name': S + '_EXT_MAX', 'value': 20},
         # mixed-case names behind the upper-case prefix (GDK_KEY_a style): the prefix is still carried
         {'id': 'K_KEY_a', 'k': 'const', 'name': S + '_KEY_a', 'value': 97},
         {'id': 'K_KEY_Return', 'k': 'const', 'name': S + '_KEY_Return', 'value': 65293},
@@ -116,7 +126,8 @@ def menu(I, s):
 # naming does not depend on what else is declared; they are explored in all pairs/triples)
 CORE_IDS = ['TD_Text', 'ST_Text', 'TD_TextBuffer', 'ST_TextBuffer', 'TD_TextAlt', 'text_get_type', 'tb_get_type',
             'text_new', 'tb_new', 'tb_new_view', 'text_new_buffer', 'text_frob', 'tb_insert', 'tb_x', 'tb_count',
-            'texture', 'text_swap', 'hidden_fn', 'ann_poke']
+            'texture', 'text_swap', 'hidden_fn', 'ann_poke',
+            'tb_new_for', 'ann_text_copy']
 
 
 # which optional item families are enumerated under which configuration (the core
@@ -126,6 +137,7 @@ EXTRA = {
     'dep': ['TD_DepOther', 'dep_other_poke', 'dep_thing_frob'],
     'fig': ['thing_frob', 'ann_thing_zap'],
     'widget': ['TD_Widget', 'widget_show'],
+    'ext': ['TD_ExtThing', 'ext_thing_frob', 'ext_init', 'K_EXT_MAX'],
 }
 ALL_EXTRA = set(x for v in EXTRA.values() for x in v)
 
@@ -165,6 +177,20 @@ DEFAULT_PREFIX_CONFIGS = [
     {'id': 'default-' + n, 'ns': n, 'ident': [n], 'sym': None, 'unprefixed': False, 'includes': [],
      'I': n, 's': sp, 'extra': [], 'only': DEFAULT_PREFIX_MENU}
     for n, sp in DEFAULT_PREFIX_NAMES]
+
+# One namespace with NESTED prefixes (Foo and FooExt, foo and foo_ext), in both listing orders.  Two prefixes
+# match FooExtThing / foo_ext_*; which one is stripped is not fixed by the statement (either name is accepted,
+# see expectation()), but foo_ext_thing_frob (FooExtThing *) carries its type's prefix under either consistent
+# choice and therefore MUST be its method.
+NESTED_MENU = ['TD_Text', 'ST_Text', 'text_get_type', 'text_new', 'text_frob', 'init', 'K_MAX',
+               'TD_ExtThing', 'ext_thing_frob', 'ext_init', 'K_EXT_MAX']
+NESTED_CONFIGS = [
+    {'id': 'nested-long-first', 'ns': 'Foo', 'ident': ['FooExt', 'Foo'], 'sym': ['foo_ext', 'foo'],
+     'unprefixed': False, 'includes': [], 'I': 'Foo', 's': 'foo', 'extra': [], 'only': NESTED_MENU},
+    {'id': 'nested-short-first', 'ns': 'Foo', 'ident': ['Foo', 'FooExt'], 'sym': None,
+     'unprefixed': False, 'includes': [], 'I': 'Foo', 's': 'foo', 'extra': [], 'only': NESTED_MENU},
+]
+SMALL_CONFIGS = DEFAULT_PREFIX_CONFIGS + NESTED_CONFIGS
 
 
 def config_menu(cfg):
@@ -290,7 +316,13 @@ def base_ctype(spec):
 class Model(object):
     """Expectation for one (config, ordered items, dump mode)."""
 
-    def __init__(self, cfg, items, dump):
+    def __init__(self, cfg, items, dump, world=0):
+        # world: which of SEVERAL matching prefixes of the scanned namespace is taken to be stripped
+        # (0 = the first listed, 1 = the last listed), consistently for identifiers and symbols.  The
+        # statement does not fix the choice; see expectation().
+        self.world = world
+        self.multi = False
+        self._alt = None
         self.cfg = cfg
         self.items = items
         self.dump = dump                      # 'none' | 'class' (TextBuffer derives from Text) | 'classflat' | 'boxed'
@@ -329,14 +361,11 @@ class Model(object):
         a leading underscore is not part of the matched text."""
         body = cname[1:] if cname.startswith('_') else cname
         mine = self.ident if space == 'ident' else self.sym
-        cands = []
-        for p in mine:
-            if self._carries(body, p, space):
-                c = self._strip(body, p, space)
-                if c not in cands:
-                    cands.append(c)
-        if cands:
-            return 'ours', cands
+        hits = [p for p in mine if self._carries(body, p, space)]
+        if hits:
+            if len(hits) > 1:
+                self.multi = True       # nested prefixes (Foo and FooExt): this world's choice
+            return 'ours', [self._strip(body, hits[0] if self.world == 0 else hits[-1], space)]
         for inc in self.includes:
             for p in (inc['ident'] if space == 'ident' else inc['sym']):
                 if self._carries(body, p, space):
@@ -555,6 +584,16 @@ class Model(object):
         def rem(o):
             return st[len(o['sp']) + 1:]
 
+        if it.get('ann') == 'constructor':
+            # annotated: neither the naming convention nor the "first parameter is not the type itself" guess is
+            # needed; the only-conditions of the statement still are
+            if (longest is not None and longest['registered'] and rr[0] == 'ours' and rr[2] == 1 and
+                    rr[1]['registered'] and
+                    (rr[1]['name'] == longest['name'] or rr[1]['name'] in self.ancestors.get(longest['name'], []))):
+                return {'placements': [('constructor', longest['name'], rem(longest))],
+                        'why': 'annotated (constructor), carries %s_ and returns the type or an ancestor' % longest['sp']}
+            return {'placements': None, 'why': 'annotated (constructor) but the type is not registered, the prefix is not '
+                                               'carried or the return type does not fit'}
         if it.get('ann') == 'method':
             # annotated: the prefix condition is waived, the same-namespace condition is not
             if r1 and r1[0] == 'ours':
@@ -589,9 +628,9 @@ class Model(object):
                     ctor = ('constructor', longest['name'], r)
                 elif fuzzy:
                     maybe_ctor = ('constructor', longest['name'], r)
-        if method and ctor:
-            return {'placements': [method, ctor], 'why': 'both the method and the constructor rule apply', 'soft': True}
         if ctor:
+            # a function that also satisfies the method rule for its first parameter's type (whose prefix is then a
+            # proper prefix of the constructed type's: text_ vs text_buffer_) belongs to the longest-prefix type
             return {'placements': [ctor], 'why': 'constructor: carries %s_, returns the type or an ancestor' % longest['sp']}
         if method:
             pl = [method]
@@ -613,6 +652,8 @@ class Model(object):
         parameter is that type (of this namespace) and its name starts with the type's symbol
         prefix (the copies exist for names like foo_texture / FooText, where the character after
         the prefix is not an underscore)."""
+        if self._alt is not None and self._alt.method_copy_ok(cname, owner):
+            return True
         it, cands = self.fn_items[cname]
         if len(cands) != 1:
             return True
@@ -630,6 +671,38 @@ class Model(object):
     def must_count(self):
         return (len(self.types) + len(self.consts) + len(self.folded) + len(self.absent) +
                 sum(1 for f in self.funcs.values() if f['placements'] is not None))
+
+
+def expectation(cfg, items, dump):
+    """The reference expectation.  When several prefixes of the scanned namespace match one name (nested
+    prefixes), the statement ("stripping the matching namespace prefix") does not say which one is stripped:
+    the model is evaluated in two consistent worlds (first listed / last listed prefix, the same choice for
+    identifiers and symbols) and every entity may follow either world: names and placements are the union.
+    What survives the union is what the statement fixes: presence exactly once, c:identifier / c:type, a name
+    that is the C name minus ONE matching prefix, and - for a function that is a method (constructor) of its
+    type in both worlds - that it is a method (constructor).  A collision in either world makes the case
+    UNSPECIFIED."""
+    m0 = Model(cfg, items, dump, 0)
+    if not m0.multi:
+        return m0
+    m1 = Model(cfg, items, dump, 1)
+    m0._alt = m1
+    m0.conflict = m0.conflict or m1.conflict
+    for table in (m0.types, m0.consts, m0.folded):
+        other = {id(m0.types): m1.types, id(m0.consts): m1.consts, id(m0.folded): m1.folded}[id(table)]
+        for c, t in table.items():
+            t['names'] = t['names'] + [n for n in other[c]['names'] if n not in t['names']]
+    for c, f in m0.funcs.items():
+        g = m1.funcs[c]
+        if f['placements'] is None or g['placements'] is None:
+            f['placements'] = None
+        else:
+            f['placements'] = list(f['placements']) + [x for x in g['placements'] if x not in f['placements']]
+            if g['why'] != f['why']:
+                f['why'] = '%s | with the other matching prefix: %s' % (f['why'], g['why'])
+        f['soft'] = bool(f.get('soft') or g.get('soft')) or f['placements'] is None
+    m0.opt_types.update(m1.opt_types)
+    return m0
 
 
 def gtype_name_for(I, s, fname):
